@@ -106,6 +106,11 @@ var vfC08Entries = func() []vfC08Entry {
 			}
 			return err
 		}},
+		// the client-side decoder of every STATUS reply (seed C08-g); its result is an error value either way
+		{Name: "W.status", Types: []byte{vfFxpStatus}, Part: "payload", Call: func(c *vfCaseC08) error {
+			sftp.VfUnmarshalStatus(7, c.Input)
+			return nil
+		}},
 		{Name: "W.attrs", Types: vfC08AttrTypes, Part: "attrs", Call: func(c *vfCaseC08) error {
 			_, _, err := sftp.VfUnmarshalAttrs(c.Input)
 			return err
